@@ -409,14 +409,17 @@ def rp(spec, st, sc):
             if i > 100000:
                 raise ForeignError("runaway repetition")
     if k == "parray":
-        s2 = nested_scope(sc)       # the documented expansion is a FocusedSeq: one scope
-        n = rp(spec[1], st, s2)
+        # the documented expansion is FocusedSeq("items", "count"/Rebuild(countfield, len_(this.items)), "items"/subcon[this.count])
+        s2 = nested_scope(sc)
+        n = _member(rp, "count", spec[1], st, s2)
         if n < 0:
-            raise Reject("negative-count")
+            e = Reject("negative-count")
+            e.path = ("items",)
+            raise e
         out = []
         for i in range(n):
             s2["_index"] = i
-            out.append(rp(spec[2], st, s2))
+            out.append(_member(rp, "items", spec[2], st, s2))
         return out
     if k == "select":
         for sub in spec[1]:
@@ -912,13 +915,13 @@ def rb(spec, v, sc):
     if k == "parray":
         s2 = nested_scope(sc)
         s2["items"] = v
-        pre, cnt = rb(spec[1], len(v), s2)
+        pre, cnt = _member_b("count", spec[1], len(v), s2)
         s2["count"] = cnt
         out = bytearray(pre)
         rets = []
         for i, e in enumerate(v):
             s2["_index"] = i
-            data, ret = rb(spec[2], e, s2)
+            data, ret = _member_b("items", spec[2], e, s2)
             out += data
             rets.append(ret)
         return bytes(out), rets
